@@ -37,12 +37,12 @@ var ordExceptions = map[string]string{
 	// COMMIT / ROLLBACK: per-file work, each file independent of the others
 	"lib/query.(*Transaction).Commit: effect calls in loop over result #0 of UncommittedFiles":   "encodes each created file into its own handler; the order affects only the order of file operations and log lines, never the bytes of a file",
 	"lib/query.(*Transaction).Commit: effect calls in loop over result #1 of UncommittedFiles":   "same for updated files",
-	"lib/query.(*Transaction).Commit: map-ordered createFileInfo":                               "list of files to swap; each swap is independent",
-	"lib/query.(*Transaction).Commit: map-ordered updateFileInfo":                               "list of files to swap; each swap is independent",
+	"lib/query.(*Transaction).Commit: map-ordered createFileInfo":                                "list of files to swap; each swap is independent",
+	"lib/query.(*Transaction).Commit: map-ordered updateFileInfo":                                "list of files to swap; each swap is independent",
 	"lib/query.(*Transaction).Rollback: effect calls in loop over result #0 of UncommittedFiles": "log lines only",
 	"lib/query.(*Transaction).Rollback: effect calls in loop over result #1 of UncommittedFiles": "log lines only",
-	"lib/query.(*ReferenceScope).StoreTemporaryTable: map-ordered msglist":                      "joined into one log message by Commit",
-	"lib/query.(*ReferenceScope).RestoreTemporaryTable: map-ordered msglist":                    "joined into one log message by Rollback",
+	"lib/query.(*ReferenceScope).StoreTemporaryTable: map-ordered msglist":                       "joined into one log message by Commit",
+	"lib/query.(*ReferenceScope).RestoreTemporaryTable: map-ordered msglist":                     "joined into one log message by Rollback",
 	// release of all handlers / cached views
 	"lib/file.(*Container).CloseAll: effect calls in loop over lib/file.Container.m":           "closes every handler; handlers are independent files",
 	"lib/file.(*Container).CloseAllWithErrors: effect calls in loop over lib/file.Container.m": "closes every handler; handlers are independent files",
@@ -70,11 +70,11 @@ func ruleOrd1(c *Ctx) {
 	pkgs := []string{"lib/query", "lib/json", "lib/value", "lib/file", "lib/option", "lib/action", "lib/cli"}
 	fns := c.P.FuncsIn(true, pkgs...)
 	type pending struct {
-		fn   *ssa.Function
-		cell ssa.Value
-		from ssa.Instruction // uses after this instruction
-		what string
-		skip func(ssa.Instruction) bool
+		fn     *ssa.Function
+		cell   ssa.Value
+		from   ssa.Instruction // uses after this instruction
+		what   string
+		skip   func(ssa.Instruction) bool
 		origin string // key of the accumulation this value descends from
 		opos   string
 	}
